@@ -7,7 +7,7 @@ import streams as S
 ID = "C07"
 MODULE = "JmesVerif.Props.C07"
 THEOREMS = ["C07_slice_eq_python", "C07_mem_pyRange", "C07_positions_in_bounds",
-            "C07_pyRange_strict", "C07_index_eq_python"]
+            "C07_pyRange_strict", "C07_index_eq_python", "C07_translated_slice_eq_python", "C07_translated_index_eq_python"]
 TRUSTED_BASE = [
     "Lean 4.33 kernel; axioms propext, Classical.choice, Quot.sound only",
     "hand-written model lean/JmesVerif/Model/Slice.lean of variable.rs slice/adjust_slice_endpoint/get_index/get_negative_index, "
